@@ -224,8 +224,12 @@ impl Linker {
         // Note, we propagate errors from `link_with_input_data` after we've checked if any files
         // changed. We want inputs-changed errors to take precedence over all other errors.
         let result = self.load_inputs_and_link::<P, A>(&mut file_loader, args);
+        #[cfg(wild_verif)]
+        simrt::phase("before_verify");
 
         file_loader.verify_inputs_unchanged()?;
+        #[cfg(wild_verif)]
+        simrt::phase("after_verify");
 
         // Write the dependency file and inputs trace after successful linking.
         if result.is_ok() {
@@ -246,6 +250,8 @@ impl Linker {
             }
         }
 
+        #[cfg(wild_verif)]
+        simrt::phase("after_depfile");
         result
     }
 
@@ -261,6 +267,11 @@ impl Linker {
         args.common().save_dir.finish(file_loader, args)?;
 
         let loaded = loaded?;
+        #[cfg(wild_verif)]
+        {
+            simrt::phase("after_open");
+            simrt::fault_err("after_open")?;
+        }
 
         let output_kind = OutputKind::new(args, file_loader);
 
@@ -282,6 +293,11 @@ impl Linker {
             &mut layout_rules_builder,
             loaded,
         )?;
+        #[cfg(wild_verif)]
+        {
+            simrt::phase("after_symbol_db");
+            simrt::fault_err("after_symbol_db")?;
+        }
 
         // TODO: Doing this here means that we can't wrap symbols produced by the linker plugin.
         // Moving it earlier or later however requires some rethought as to how this works.
@@ -291,6 +307,11 @@ impl Linker {
 
         resolver
             .resolve_symbols_and_select_archive_entries(&mut symbol_db, &mut per_symbol_flags)?;
+        #[cfg(wild_verif)]
+        {
+            simrt::phase("after_resolution");
+            simrt::fault_err("after_resolution")?;
+        }
 
         // Now that we know which archive entries are being loaded, we can resolve alternative
         // symbol definitions.
@@ -299,6 +320,11 @@ impl Linker {
             &mut per_symbol_flags,
             &resolver.resolved_groups,
         )?;
+        #[cfg(wild_verif)]
+        {
+            simrt::phase("after_alternatives");
+            simrt::fault_err("after_alternatives")?;
+        }
 
         if let Some(plugin) = plugin.as_mut()
             && plugin.is_initialised()
@@ -328,6 +354,11 @@ impl Linker {
             &mut output_sections,
             &layout_rules,
         )?;
+        #[cfg(wild_verif)]
+        {
+            simrt::phase("after_section_resolution");
+            simrt::fault_err("after_section_resolution")?;
+        }
 
         let layout = layout::compute::<P, A>(
             symbol_db,
@@ -336,8 +367,18 @@ impl Linker {
             output_sections,
             &mut output,
         )?;
+        #[cfg(wild_verif)]
+        {
+            simrt::phase("after_layout");
+            simrt::fault_err("after_layout")?;
+        }
 
         P::write_output_file::<A>(&output, &layout)?;
+        #[cfg(wild_verif)]
+        {
+            simrt::phase("after_write");
+            simrt::fault_err("after_write")?;
+        }
         diff::maybe_diff()?;
 
         // We've finished linking. We consider everything from this point onwards as shutdown.
